@@ -1460,8 +1460,9 @@ class Kconfig(object):
                                 self.report.add_record(
                                     MultipleAssignmentArea,
                                     sym_or_choice=sym,
+                                    # (a malformed string literal is reported and ignored below: record it as written)
                                     new_value=unescape(_conf_string_match(val).group(1))
-                                    if sym.orig_type == STRING
+                                    if sym.orig_type == STRING and _conf_string_match(val)
                                     else val,
                                     is_default=value_is_default,
                                 )
